@@ -18,6 +18,10 @@ pub fn generate(g: &mut Gen, thorough: bool) {
         let a = d.def();
         let b = a.replacen("btmerc", "tmerc", 1);
         g.push(format!("S_C14\ttm\t{}\t{}\t{}", escape(&b), escape(&a), data_of(&pts)), "oracle-tmerc-btmerc", true);
+        // (a hair from the central meridian: millimetres are millimetres there too)
+        let near: Vec<[f64; 4]> = [1e-12, -1e-10, 5e-10, -9e-10, 2e-9, 1e-8, -1e-7].iter().map(|dl| [d.lon_0.to_radians() + dl, g.rng.uniform(-1.3, 1.3), 0.0, 0.0]).collect();
+        g.push(format!("S_C14\ttm\t{}\t{}\t{}", escape(&b), escape(&a), data_of(&near)), "oracle-tmerc-btmerc-next-to-the-meridian", true);
+        g.push(op_line("default", &[], &[], &b, "apply", "F", &data_of(&near)), "model-tmerc-next-to-the-meridian", true);
         g.push(op_line("default", &[], &[], &a, "apply", "F", &data_of(&pts)), "model-btmerc", true);
         g.push(op_line("default", &[], &[], &b, "apply", "F", &data_of(&pts)), "model-tmerc", true);
         let zone = 1 + g.rng.below(60);
@@ -55,8 +59,15 @@ pub fn generate(g: &mut Gen, thorough: bool) {
         g.push(format!("S_C14\tcart\t{ellps}\t\t{}", data_of(&timeless)), "oracle-cart-ellipsoid-no-epoch", true);
         g.push(op_line("default", &[], &[], &format!("cart ellps={ellps}"), "apply", "F", &data_of(&timeless)), "model-cart-no-epoch", true);
         g.push(op_line("default", &[], &[], &format!("cart ellps={ellps}"), "apply", "F", &data_of(&geo)), "model-cart", true);
+        // (the poles and the equator themselves among the latitudes: what an operator does there it does like the method)
+        let hp = std::f64::consts::FRAC_PI_2;
+        let special: Vec<[f64; 4]> = vec![[0.1, hp, 0.0, 2000.0], [0.1, -hp, 0.0, 2000.0], [0.1, 0.0, 0.0, 2000.0], [0.1, -0.0, 0.0, 2000.0], [0.1, f64::from_bits(hp.to_bits() - 1), 0.0, 2000.0], [0.1, 1e-300, 0.0, 2000.0]];
         for kind in ["geocentric", "reduced", "parametric", "conformal", "rectifying", "authalic"] {
             g.push(format!("S_C14\tlat\t{ellps}\t{kind}\t{}", data_of(&geo)), "oracle-latitude-ellipsoid", true);
+            g.push(format!("S_C14\tlat\t{ellps}\t{kind}\t{}", data_of(&special)), "oracle-latitude-ellipsoid-poles-and-equator", true);
+            for dir in ["F", "I"] {
+                g.push(op_line("default", &[], &[], &format!("latitude {kind} ellps={ellps}"), "apply", dir, &data_of(&special)), "model-latitude-poles-and-equator", true);
+            }
         }
         let deg: Vec<[f64; 4]> = (0..8).map(|_| [g.rng.uniform(-89.0, 89.0), g.rng.uniform(-180.0, 180.0), g.rng.uniform(0.0, 3000.0), 0.0]).collect();
         for kind in ["prime", "meridian", "gaussian", "mean", "azimuthal"] {
